@@ -50,8 +50,10 @@ def show(kinds):
 
 
 class KindAnalysis(object):
-    def __init__(self, ctx, root, param_kinds, guard_tags=(), subscript_summary=None, exc_classes=()):
+    def __init__(self, ctx, root, param_kinds, guard_tags=(), subscript_summary=None, exc_classes=(), extra_funcs=()):
         self.ctx, self.prog, self.root = ctx, ctx.prog, root
+        # functions followed like nested closures although they live elsewhere (closures lifted out by a refactoring)
+        self.extra = {g.qname for g in extra_funcs}
         self.guard_tags = guard_tags  # [(fact_text, tag)] : None assigned under fact -> NONE@tag
         self.subscript_summary = subscript_summary or (lambda func, expr, state: None)
         self.exc_classes = set(exc_classes)
@@ -84,6 +86,13 @@ class KindAnalysis(object):
                 return c[name]
             f = f.parent
         return fs(ANY)
+
+    @staticmethod
+    def _value_params(g):
+        ps = list(g.params)
+        if g.cls is not None and g.parent is None and ps and ps[0] in ("self", "cls"):
+            ps = ps[1:]
+        return ps
 
     def _join_param(self, callee, pname, kinds):
         p = self.params.setdefault(callee.qname, {})
@@ -253,8 +262,8 @@ class KindAnalysis(object):
                 rec["kinds"] = rec["kinds"] | v
             return
         callee = self.prog.resolve_call(func, call)
-        if callee is not None and (callee.parent is not None or callee is self.root) and callee.parent is not None:
-            ps = callee.params
+        if callee is not None and (callee.parent is not None or callee.qname in self.extra):
+            ps = self._value_params(callee)
             for i, a in enumerate(call.args):
                 if i < len(ps):
                     self._join_param(callee, ps[i], self._resolve_dl(self.eval(func, a, state, facts), facts))
@@ -274,12 +283,12 @@ class KindAnalysis(object):
                 hs = [(call.args[0], fs(VALUE))] + ([(call.args[1], fs(FAILURE))] if len(call.args) > 1 else [])
             for h, k in hs:
                 g = self.prog.resolve_callable(func, h)
-                if g is not None and g.parent is not None:
+                if g is not None and (g.parent is not None or g.qname in self.extra):
                     fp = g.first_param()
                     if fp:
                         self._join_param(g, fp, k)
                     extra = call.args[1:] if name != "addCallbacks" else []
-                    ps = g.params
+                    ps = self._value_params(g)
                     for i, a in enumerate(extra):
                         if i + 1 < len(ps):
                             self._join_param(g, ps[i + 1], self.eval(func, a, state, facts))
